@@ -8,7 +8,7 @@ import re
 
 from ..astutil import call_attr, calls_in, guard_facts, unparse, walk_local
 from ..cfg import CFG
-from ..dataflow import reaching_defs
+from ..dataflow import reaching_defs, resolved_text
 from ..report import Finding, Report
 from ..srcindex import AnalysisError, Index
 
@@ -238,12 +238,40 @@ def check_live_ins(idx: Index, rep: Report) -> None:
         r.ok(f.fq, f"{f.loc} per op: remove results, add operands, add nested live-ins; finally remove block args")
 
 
+def check_pool_keys(idx: Index, rep: Report) -> None:
+    """The per-pool tables of RegisterStack are keyed by `register_pool_key()` (shared by all widths of one physical
+    register file on x86); looking one of them up under another key reads / updates a different, empty entry."""
+    r = rep.rule("C19.R6", "every lookup in RegisterStack's per-pool tables (available / allocatable / reserved registers, next infinite index) uses the register's register_pool_key()", floor=8)
+    cls = idx.cls(RS, "RegisterStack")
+    TABLES = ("available_registers", "allocatable_registers", "reserved_registers", "next_infinite_indices")
+    for ms in cls.methods.values():
+        for m in (ms if isinstance(ms, list) else [ms]):
+            cfg = None
+            for n in walk_local(m.node):
+                if isinstance(n, ast.Subscript) and isinstance(n.value, ast.Attribute) and n.value.attr in TABLES and unparse(n.value.value) == "self":
+                    if cfg is None:
+                        cfg = CFG(m.node)
+                    try:
+                        at = cfg.node_of(n)
+                    except AnalysisError:
+                        continue
+                    k = resolved_text(cfg, n.slice, at)
+                    inst = f"{m.fq}:{n.value.attr}[{unparse(n.slice)}]@{n.lineno}"
+                    if re.fullmatch(r"[\w.]+\.register_pool_key\(\)", k):
+                        r.ok(inst, None)
+                    elif re.fullmatch(r"(type\()?\w+\)?(\.name|\.register_name(\.data)?|\.__name__|\.__class__)?", k):
+                        r.fail(inst, Finding("C19.R6", m.fq, f"pool-key-mismatch:{n.value.attr}", f"`{unparse(n)}` looks the table up under `{k}`, not under the register's register_pool_key(): on targets where several register types share one pool (x86: 64/32/16/8-bit names of one register file) this is another (empty) entry, so the update is lost - e.g. an excluded register stays allocatable and is handed out again while a pre-assigned value lives in it", f"{RS}:{n.lineno}"))
+                    else:
+                        raise AnalysisError(f"{m.fq}: key `{k}` of `{unparse(n)}` not understood")
+
+
 def check(idx: Index, rep: Report, tier: str) -> str:
     rep.run(check_frees, idx, rep)
     rep.run(check_stack, idx, rep)
     rep.run(check_exclusion, idx, rep)
     rep.run(check_zero, idx, rep)
     rep.run(check_live_ins, idx, rep)
+    rep.run(check_pool_keys, idx, rep)
     return (
         "Ownership / guard / ordering rules over the register allocator: frees target only values defined by the operation, "
         "the register stack never makes reserved or non-allocatable registers available and reservations do not change "
